@@ -6,7 +6,7 @@ TEXT = {
   level='Machine-checked theorem (Coq): for ANY wrapped store whose StoreLogs is all-or-nothing and whose GetLog is a function of stored state, '
         'any capacity and any operation sequence of any length, LogCache returns exactly what the wrapped store alone returns '
         '(C19_logcache_transparent, full strength, no bound). The Gallina model of log_cache.go is tied to /repo on every run by running the real '
-        'raft.LogCache and the model on the same op sequences (exhaustive small scope + random) and by the property monitor (cache vs bare store) on the implementation.',
+        'raft.LogCache and the model on the same op sequences (exhaustive small scope + random) and by the property monitor (cache vs bare store) on the implementation. Component 1019 (monitored only): a GetLog held after the backend answered while the suffix is deleted and rewritten; afterwards the cache must answer like the store again.',
   note='Trusted: Coq kernel; extraction (ExtrOcamlBasic only) cross-checked in-Coq; harness MapLogStore as the reference store; hypothesis: failed StoreLogs has no effect '
        '(shown necessary by C19_atomic_failure_needed); no transient GetLog errors; errors compared as ok/error.',
   technique='Coq proof (simulation invariant over op sequences) + differential correspondence model vs real LogCache',
@@ -18,7 +18,7 @@ TEXT = {
         'and hold only values reported for that id; reports for non-voters change nothing; commit index monotone; follower min(LeaderCommit,lastIndex) only upward and <= last index. '
         'Tie: real commitment driven through the tag-exported wrapper on exhaustive small tables + random op sequences, diffed against the extracted model; '
         'the property monitor (majority of current voters really reported >= commit, >= startIndex, monotone) runs on the implementation. '
-        'Partial: that the reporting voters durably hold the entries is the handler-level store-before-ack order (checked in the node-sequence tie), the global "still hold it" part needs leader completeness.',
+        'Partial: that the reporting voters durably hold the entries is the handler-level store-before-ack order (checked in the node-sequence tie), the global "still hold it" part needs leader completeness. COMPOSED MODEL WITH COMMITMENT (Model/ClusterCommit.v: answers travelling back, nextIndex per follower, one outstanding call, commitment.match, leader-loop commit, FSM apply) tied by component 102: scripts on REAL clusters in which the real replicateTo runs (driven by the script, blocked in the transport), requests are executed by the followers\' real handlers at any later time, and after every op commit index, applied index, FSM content, full logs and every leader\'s nextIndex are diffed against the model; monitors on the real state: FSM histories prefix-equal, committed entries equal across servers, leaders hold what others know committed. The proof attempt over this model found defect F11 (a follower committed over log entries the request did not vouch for; replayed on real servers, fixed in /repo a641560).',
   note='Trusted: Coq kernel, extraction cross-checked in Coq, harness. Leader/follower call sites of match are tied through the node-sequence and cluster components, not this one.',
   technique='Coq proof (sorting/counting lemma + invariant over op sequences) + exhaustive differential tables against real commitment',
  ),
@@ -39,7 +39,7 @@ TEXT = {
         'quorumSize is a strict majority of voters only, commitment slots ignore non-voters. Tie: real nextConfiguration/checkConfiguration/hasVote/inConfiguration/quorumSize vs extracted model, '
         'exhaustive on a small universe incl. ill-formed configurations; monitors on the implementation (no aliasing of the input, voter-set distance <= 1, well-formedness recomputed independently). '
         'Partial: the leader-loop gate (previous configuration committed + own-term entry committed) and "never elected" are checked by the cluster/gate components as they are added; the global '
-        '"no log holds two uncommitted configurations" needs leader completeness and is not proved.',
+        '"no log holds two uncommitted configurations" needs leader completeness and is not proved. The commitment tables (non-voters never counted, also after demotions: setConfiguration sequences) and the vote-round monitors of the candidate sessions are part of this check.',
   note='Trusted: Coq kernel; harness naming of ids/addresses. Errors compared as ok/error.',
   technique='Coq proof (list lemmas, pigeonhole) + exhaustive differential enumeration against real nextConfiguration',
  ),
@@ -47,7 +47,7 @@ TEXT = {
   level='Machine-checked theorems (Coq): for ALL first/snapshot/last/TrailingLogs values the compaction range starts at the first index, ends at or below the snapshot index and leaves at least TrailingLogs entries, and is maximal; the reset on monotonic stores removes exactly what the store holds; '
         'takeSnapshot (model tied to the real takeSnapshot) records exactly the FSM goroutine\'s last index and term, the COMMITTED configuration with its index and the FSM content, at an index not below the committed configuration\'s, and afterwards the log has lost at most one range entirely at or below the snapshot index leaving TrailingLogs entries (C11_snapshot_records_committed_state); it is refused while the committed configuration entry has not reached the FSM. '
         'Tie: real compactLogsWithTrailing exhaustive 0..8^4; node sequences with takeSnapshot events incl. crash cuts (snapshot metadata, content and log diffed; monitors); a snapshot racing a configuration commit with the FSM held at a gate (monitored). '
-        'PARTIAL: the global statement "every index <= last is covered by the newest snapshot or present in the log" across InstallSnapshot is monitored, not proved, and has the known finding F3-ii (stale entries kept below an installed snapshot); concurrent interleavings of the snapshot goroutine are monitored (the model is sequential).',
+        'PARTIAL: the global statement "every index <= last is covered by the newest snapshot or present in the log" across InstallSnapshot is monitored, not proved, and has the known finding F3-ii (stale entries kept below an installed snapshot); concurrent interleavings of the snapshot goroutine are monitored (the model is sequential). Component 1011 (takeSnapshot racing applies: log contiguous above the snapshot) and component 1015 (the snapshot store under a file-size limit: a failed Close is never reported as success) are part of this check.',
   note='Trusted: Coq kernel; harness store FirstIndex semantics (least key); the gate placed in the harness FSM for the race component.',
   technique='Coq proof (compaction arithmetic; takeSnapshot characterisation) + exhaustive differential sweep of compactLogsWithTrailing + differential node sequences with snapshots + monitored snapshot/configuration race',
  ),
@@ -70,7 +70,7 @@ TEXT = {
         'a network that executes a vote request late, repeatedly or never and delivers at most one answer per runCandidate invocation and peer, any other RPC / stray vote request / TimeoutNow / restart at any server, store failures and crash cuts inside the handlers - '
         'no run has two servers become leader of the same term, for elections held under one configuration and for elections that straddle one membership change (held under either of two successive configurations: C01_election_safety_across_membership_change). Ingredients also stated separately: at most one vote per term per server over ANY history (C06), majorities of one and of two successive configurations intersect, quorumSize is a strict majority. '
         'PARTIAL: chains of several uncommitted membership changes are not covered (the code serialises changes, C07); pre-vote rounds are abstracted (they only gate electSelf, C14); store failures inside electSelf are covered at node level, not in the composed system. '
-        'Tie: election scripts on REAL 2-5 server clusters (every RequestVote held until the script delivers the request and, separately, the answer; lost answers, stray requests, restarts, injected AppendEntries) diffed state-by-state against the composed model; node sequences; real-cluster election races with monitors.',
+        'Tie: election scripts on REAL 2-5 server clusters (every RequestVote held until the script delivers the request and, separately, the answer; lost answers, stray requests, restarts, injected AppendEntries) diffed state-by-state against the composed model; node sequences; real-cluster election races with monitors. The candidate loop against scripted peers (component 14, configurations with non-voters; monitors requestvote-sent-to-non-voter / leader-without-vote-quorum-of-voters) is part of this check.',
   note='Trusted: Coq kernel; harness (scripted transport, stores); the transport contract stated in Model/Cluster.v (one answer per call) - checked only in so far as the election scripts exercise it.',
   technique='Coq proof (cluster invariant: tally witnesses + per-voter functional grant tables + quorum intersection, by induction over runs) + differential election scripts on real clusters + node sequences + monitored election races',
  ),
@@ -88,7 +88,7 @@ TEXT = {
         'a future that carries a response carries the response to its own request; responses arrive in send order; nothing sent before or after a connection failure receives a response once the connection died; '
         'and, for any codec whose decoder reads exactly one encoded message off the front of a stream, frames written back to back are read back whole and in order. '
         'Tie: scripts (exhaustive up to a bound + random deep ones) on a real NetworkTransport AppendEntriesPipeline diffed against the model. PARTIAL: field fidelity of the msgpack codec itself (every field of every RPC kind, streamed snapshot bodies), '
-        'pooled-connection reuse after errors and timeouts are not modelled (third-party codec, goroutines, deadlines); they are checked by generated-value monitors (field-by-field comparison both directions, no-stale-response scenarios), not proved.',
+        'pooled-connection reuse after errors and timeouts are not modelled (third-party codec, goroutines, deadlines); they are checked by generated-value monitors (field-by-field comparison both directions, no-stale-response scenarios), not proved. Pairs whose two ends use different MsgpackUseNewTimeFormat settings are included (decoding accepts both formats).',
   note='Trusted: Coq kernel; the in-memory stream layer of the harness (net.Pipe) in place of TCP; the measured codec conflations treated as equal are exactly nil~empty byte slices and Entries, times compared by instant.',
   technique='Coq proof (FIFO pairing invariant; framing over an abstract prefix codec) + differential pipeline scripts on the real transport + generated-value fidelity monitors',
  ),
@@ -112,7 +112,7 @@ TEXT = {
   level='Machine-checked theorems (Coq) over the model of FileSnapshotStore and a file system with a stated persistence model, for EVERY history of Create/Write/Close/Cancel (any (term,index) order, sizes, concurrent sinks), every RemoveAll unlink order, every crash point, every surviving directory prefix allowed by the fsyncs and EVERY content of un-synced files: '
         'whatever List returns opens with exactly the bytes written (checksum verified), carries its own (term,index), came from a Close and was renamed before the crash; the list is newest-first, duplicate-free and at most retain long; a snapshot whose Close returned nil is listed unless retain listed snapshots are all newer (retention never removes the newest); cancelled or not-yet-renamed snapshots are never listed; Open returns only bytes covered by the metadata checksum. '
         'Tie: the file-system op program of the real store captured by strace equals the model program; ~22000 (quick) materialised crash images rebuilt from the captured syscalls and ~3000 explicit/corrupted images are opened by a fresh real store and compared with the model; monitors state the property on the real outputs. '
-        'PARTIAL/assumed: the persistence model (ordered directory operations, fsync as barrier, un-synced content arbitrary) is a statement about the platform; CRC64 is idealised as injective; sink writes stay below the 4096-byte bufio buffer in the tie.',
+        'PARTIAL/assumed: the persistence model (ordered directory operations, fsync as barrier, un-synced content arbitrary) is a statement about the platform; CRC64 is idealised as injective; sink writes stay below the 4096-byte bufio buffer in the tie. Component 1015 injects I/O failures (RLIMIT_FSIZE: the state file\'s write is refused inside Write or only in Close\'s final flush): Close returned nil => listed and readable; failed Close => not listed.',
   note='Trusted: Coq kernel; strace + its parser; the persistence model in Model/FileSnap.v. Proofs/FileSnapA..J.v were written by a sub-agent against fixed model and statement files, then compiled and grep-checked here.',
   technique='Coq proof (prefix invariant over the op program + retained-set argument for reaping) + strace-based differential op program + materialised crash images on the real store',
  ),
@@ -121,7 +121,7 @@ TEXT = {
         '(leader included, non-voters never counted) were heard within the lease; once too few voters answer after t0, every check after t0+lease steps down; checks are between 10 ms and one lease apart, so step-down happens within '
         't0 + 2 x lease + scheduling latency (a parameter); a leader whose majority keeps answering within the lease is never deposed; ValidateConfig gives lease <= heartbeat <= election. '
         'Tie: real checkLeaderLease on a stepper leader over a grid of contact ages x 7 configurations, ValidateConfig enumeration, the 10 ms constant, and real-timer clusters measuring the step-down delay and a fault-free run. '
-        'PARTIAL: scheduler latency and that heartbeats arrive within the lease in a fault-free cluster are runtime behaviour (hypotheses of the theorems), measured not proved.',
+        'PARTIAL: scheduler latency and that heartbeats arrive within the lease in a fault-free cluster are runtime behaviour (hypotheses of the theorems), measured not proved. The isolated leader is also kept busy by client calls (Apply/VerifyLeader/GetConfiguration every lease/25): the lease check must not be starved.',
   note='Trusted: Coq kernel; wall clock of the sandbox for the real-timer scenarios; the leaderLoop interval formula max(lease-maxDiff, 10ms) is re-stated in the harness (the loop is not callable) and exercised in the real-timer runs.',
   technique='Coq proof (counting lemma + timed-sequence argument) + differential grid on checkLeaderLease + measured real-timer clusters',
  ),
@@ -136,29 +136,28 @@ TEXT = {
   technique='Coq proof (characterisation of recover; replay order) + differential restart of every crash-cut image',
  ),
  'C02': dict(
-  level='PARTIAL. Machine-checked theorems (Coq) for the per-server half: whatever commit index reaches processLogs, the FSM is handed exactly log(lastApplied, index] in increasing index order, each entry once, an index at or below '
-        'lastApplied is never applied again, start-up restores exactly the newest usable snapshot. The cross-server half (identical entry at an index on every FSM; only committed entries applied) is NOT proved for all runs (it needs '
-        'leader completeness); it is checked on every FSM call of real cluster histories by monitors. Those monitors found a genuine defect (F3-ii, KNOWN-FINDING: stale entries kept below an installed snapshot are later served to a new follower and applied) '
-        'and a deviation in how configuration entries are counted (F8, KNOWN-FINDING).',
+  level='Machine-checked theorems (Coq). ALL SERVERS, ALL RUNS (C02_state_machine_safety_all_runs): in every reachable state of the cluster transition system with commitment (Model/ClusterCommit.v: elections, dispatchLogs, replicateTo from each follower\'s nextIndex, requests and answers delayed/duplicated/reordered/lost, commitment.match, leader-loop commit, restarts, store failures and crash cuts in every handler) two running servers hold the same entry at every index both know committed and lastApplied <= commitIndex <= lastIndex - from a freshly booted cluster, without proposed configuration entries and without forged vote requests (shown necessary). PARTIAL beyond that (snapshots, InstallSnapshot - false on this code: F3-ii -, membership changes, RestoreCommittedLogs are monitored). ONE SERVER: whatever commit index reaches processLogs, the FSM is handed exactly log(lastApplied, index] in increasing index order, each entry once, an index at or below '
+        'lastApplied is never applied again, start-up restores exactly the newest usable snapshot. The clauses outside the composed system are checked on every FSM call of real cluster histories by monitors. Those monitors found a genuine defect (F3-ii, KNOWN-FINDING: stale entries kept below an installed snapshot are later served to a new follower and applied) '
+        'and a deviation in how configuration entries are counted (F8, KNOWN-FINDING). COMPOSED MODEL WITH COMMITMENT (Model/ClusterCommit.v: answers travelling back, nextIndex per follower, one outstanding call, commitment.match, leader-loop commit, FSM apply) tied by component 102: scripts on REAL clusters in which the real replicateTo runs (driven by the script, blocked in the transport), requests are executed by the followers\' real handlers at any later time, and after every op commit index, applied index, FSM content, full logs and every leader\'s nextIndex are diffed against the model; monitors on the real state: FSM histories prefix-equal, committed entries equal across servers, leaders hold what others know committed. The proof attempt over this model found defect F11 (a follower committed over log entries the request did not vouch for; replayed on real servers, fixed in /repo a641560).',
   note='Trusted: Coq kernel; harness. The known findings are reported as KNOWN-FINDING lines and keyed by a diagnosis in the signature, other violations of the same monitors are still reported.',
-  technique='Coq proof (processLogs stream order) + differential node sequences + monitored real-cluster histories',
+  technique='Coq proof (cluster-level invariant over all runs; processLogs stream order) + differential commitment scripts on real clusters + node sequences + monitored real-cluster histories',
  ),
  'C12': dict(
   level='PARTIAL. Machine-checked theorems (Coq): (follower) after a successful InstallSnapshot the AppendEntries whose previous entry is the snapshot boundary is accepted whatever stale/divergent/compacted log the follower held (the pinned tree violated this: F3-i, repaired); '
         '(leader, Model/Replicate.v) a rejected AppendEntries strictly lowers nextIndex while above 1 and to at most the follower\'s last index + 1, an accepted one raises it past what was sent and reports that index, a successful InstallSnapshot moves it past the snapshot; '
         '(BOTH SIDES COMPOSED, Model/Converge.v - C12_catch_up_converges) for ANY hole-free follower log (stale, divergent, longer or shorter than the leader\'s) under the Log Matching premise, one replicateTo call ends within next0+n trips with the follower holding the leader\'s term at every index, nextIndex = n+1 and n reported to the commitment; the handler never panics. '
         'Not proved: snapshot transfer inside the composed loop, store failures during catch-up, and the bound in election timeouts (probabilistic timers, scheduler) - measured on real clusters (convergence within 20 election timeouts after a random fault period). '
-        'Tie: enumeration on followers; the real replicateTo against a scripted follower; a real leader and a real follower joined by a transport, diffed against the composed model; real-timer convergence scenarios.',
+        'Tie: enumeration on followers; the real replicateTo against a scripted follower; a real leader and a real follower joined by a transport, diffed against the composed model; real-timer convergence scenarios. Component 1011 (a snapshot racing applies must leave the log contiguous above it, else the same snapshot is re-sent for ever) is part of this check.',
   note='Trusted: Coq kernel; wall clock for the convergence scenarios. Proofs/Converge*.v were written by a sub-agent against fixed model files; the first statement given to it was false and it refuted it (kept as a theorem).',
   technique='Coq proof (leader-side progress lemmas, follower-side acceptance, composed convergence by a two-phase induction) + differential ties on real replicateTo / appendEntries + measured real-timer convergence',
  ),
  'C03': dict(
-  level='PARTIAL. Machine-checked theorems (Coq) for the per-leadership and per-server facts leader completeness rests on: a new leader\'s commitment starts above everything its log held at election, so for ANY sequence of match reports its commit index is 0 or above the '
+  level='Machine-checked theorems (Coq). LEADER COMPLETENESS OVER ALL RUNS (C03_leader_completeness_all_runs): in every reachable state of the cluster transition system with commitment (Model/ClusterCommit.v) a leader whose term is at least the term of a running server holds, at the same index, every entry that server knows committed - committed entries are on every later leader and are never re-assigned (classical argument: matches of the leader\'s own term on a majority, votes of a majority, up-to-date check, Log Matching; invariant with ghost records, strong induction on terms); same side conditions as C02. PARTIAL beyond that (snapshots, InstallSnapshot, membership changes, RestoreCommittedLogs, client acknowledgements are monitored). PER LEADERSHIP / PER SERVER: a new leader\'s commitment starts above everything its log held at election, so for ANY sequence of match reports its commit index is 0 or above the '
         'election-time last index (no old-term entry committed by counting, Figure 8 - C03_commit_only_above_election_last_index, from C05_commit_sound); votes are cast only after the log up-to-date check over any history with crashes (C06); followers delete only from the first conflicting index (C04); '
-        'the leader counts itself only after its own StoreLogs succeeded. The cluster-level induction (every later leader holds every committed entry) is NOT proved; it is checked on real histories (every Leader transition vs everything acknowledged/applied before; replaced/deleted applied entries). '
-        'Tie: leader sequences on real servers diffed against the leader model (start index, commit steps), node sequences, cluster histories.',
+        'the leader counts itself only after its own StoreLogs succeeded. What lies outside the composed system is checked on real histories (every Leader transition vs everything acknowledged/applied before; replaced/deleted applied entries). '
+        'Tie: leader sequences on real servers diffed against the leader model (start index, commit steps), node sequences, cluster histories. COMPOSED MODEL WITH COMMITMENT (Model/ClusterCommit.v: answers travelling back, nextIndex per follower, one outstanding call, commitment.match, leader-loop commit, FSM apply) tied by component 102: scripts on REAL clusters in which the real replicateTo runs (driven by the script, blocked in the transport), requests are executed by the followers\' real handlers at any later time, and after every op commit index, applied index, FSM content, full logs and every leader\'s nextIndex are diffed against the model; monitors on the real state: FSM histories prefix-equal, committed entries equal across servers, leaders hold what others know committed. The proof attempt over this model found defect F11 (a follower committed over log entries the request did not vouch for; replayed on real servers, fixed in /repo a641560).',
   note='Trusted: Coq kernel; harness; sampled schedules for the cluster part. Operator overrides (RecoverCluster, Restore) are outside the property and not used in these scenarios.',
-  technique='Coq proof (commitment invariant instantiated at setupLeaderState) + differential leader sequences + monitored real-cluster histories',
+  technique='Coq proof (cluster-level invariant with ghost leaderships/acceptances/votes, induction on terms; commitment invariant instantiated at setupLeaderState) + differential commitment scripts on real clusters + leader sequences + monitored real-cluster histories',
  ),
  'C08': dict(
   level='PARTIAL. Machine-checked theorems (Coq) over the leader model: for ANY batch mixing commands, barriers and configurations with or without futures, each future receives the FSM response of ITS OWN entry at that entry\'s index (C08_response_pairing, '
@@ -170,7 +169,7 @@ TEXT = {
  'C09': dict(
   level='Machine-checked theorems (Coq) over the leader model (after the fix: commit for F2): VerifyLeader is registered only with voters of the latest configuration (never the leader itself), success needs the caller\'s vote plus positive answers of quorumSize-1 registered peers with no negative one before, '
         'quorumSize is a strict majority of voters. PARTIAL: freshness - that every counted exchange was started after the call - does not hold on this code (KNOWN-FINDING F2b: exchanges sent before the call are counted when their answer is processed after registration) and is therefore not a theorem; '
-        'the monitor checks it on real histories and reports the known finding by its signature. Tie: verifyLeader registration/counters on real servers in leader sequences; cluster scenarios with partitions, lost and held answers, competing elections.',
+        'the monitor checks it on real histories and reports the known finding by its signature. Tie: verifyLeader registration/counters on real servers in leader sequences; cluster scenarios with partitions, lost and held answers, competing elections. Sub-quorum leaders with writes pending during the call and a quiescent strict variant (every counted acknowledgement must belong to an exchange of the call; one follower answering several exchanges counts once).',
   note='Trusted: Coq kernel; harness transport (records when an answer is handed to the caller).',
   technique='Coq proof (registration set, vote counting) + differential leader sequences + monitored VerifyLeader scenarios',
  ),
